@@ -1,5 +1,7 @@
 use crate::framework::{Monitor, Tier};
 
+pub mod c04;
+pub mod c05;
 pub mod c06;
 pub mod c07;
 pub mod c08;
@@ -20,6 +22,8 @@ pub fn by_id(id: &str) -> Option<Box<dyn Monitor>> {
         "C01" => Box::new(safety_uni::SafetyUni { id: "C01", policy: Policy::FP }),
         "C02" => Box::new(safety_uni::SafetyUni { id: "C02", policy: Policy::EDF }),
         "C03" => Box::new(safety_uni::SafetyUni { id: "C03", policy: Policy::FIFO }),
+        "C04" => Box::new(c04::C04),
+        "C05" => Box::new(c05::C05),
         "C06" => Box::new(c06::C06),
         "C07" => Box::new(c07::C07),
         "C08" => Box::new(c08::C08),
